@@ -228,7 +228,13 @@ func Normalize(dir, goarch string, tags []string) (map[string][]byte, []string) 
 			changed = n.zeroDeclRound()
 		}
 		if !changed {
+			changed = n.paramSplitRound()
+		}
+		if !changed {
 			changed = n.sroaRound()
+		}
+		if !changed {
+			changed = n.structAssignRound()
 		}
 		if !changed {
 			changed = n.sinkRound()
@@ -2312,6 +2318,88 @@ func (n *normalizer) bodyText(fd *ast.FuncDecl, mode string, temps []string, res
 	m := map[ast.Node]ast.Node{}
 	body := cloneAST(fd.Body, m).(*ast.BlockStmt)
 	nilRet := map[*ast.ReturnStmt]bool{} // clone returns whose tested result is the literal nil
+	nonNilRet := map[*ast.ReturnStmt]bool{} // … whose tested result is a once-defined name, returned under `if name != nil`
+	var knownNonNil func(ret *ast.ReturnStmt, e ast.Expr) bool
+	{
+		assigns := map[types.Object]int{}
+		parent := map[ast.Node]ast.Node{}
+		var stack []ast.Node
+		ast.Inspect(fd.Body, func(x ast.Node) bool {
+			if x == nil {
+				stack = stack[:len(stack)-1]
+				return true
+			}
+			if len(stack) > 0 {
+				parent[x] = stack[len(stack)-1]
+			}
+			stack = append(stack, x)
+			switch y := x.(type) {
+			case *ast.AssignStmt:
+				for _, l := range y.Lhs {
+					if id, ok := l.(*ast.Ident); ok {
+						if o := n.info.Defs[id]; o != nil {
+							assigns[o]++
+						} else if o := n.info.Uses[id]; o != nil {
+							assigns[o]++
+						}
+					}
+				}
+			case *ast.IncDecStmt:
+				if id, ok := y.X.(*ast.Ident); ok {
+					assigns[n.info.Uses[id]] += 2
+				}
+			case *ast.UnaryExpr:
+				if id, ok := ast.Unparen(y.X).(*ast.Ident); ok && y.Op == token.AND {
+					assigns[n.info.Uses[id]] += 2
+				}
+			case *ast.RangeStmt:
+				for _, l := range []ast.Expr{y.Key, y.Value} {
+					if id, ok := l.(*ast.Ident); ok {
+						if o := n.info.Defs[id]; o != nil {
+							assigns[o] += 2
+						} else if o := n.info.Uses[id]; o != nil {
+							assigns[o] += 2
+						}
+					}
+				}
+			}
+			return true
+		})
+		knownNonNil = func(ret *ast.ReturnStmt, e ast.Expr) bool {
+			id, ok := ast.Unparen(e).(*ast.Ident)
+			if !ok {
+				return false
+			}
+			obj, _ := n.info.Uses[id].(*types.Var)
+			if obj == nil || assigns[obj] != 1 || obj.Parent() == n.pp.Types.Scope() {
+				return false
+			}
+			// a named result or parameter is not counted by assigns as defined: require a := definition inside the body
+			if obj.Pos() < fd.Body.Pos() || obj.Pos() > fd.Body.End() {
+				return false
+			}
+			var child ast.Node = ret
+			for p := parent[ret]; p != nil; child, p = p, parent[p] {
+				switch y := p.(type) {
+				case *ast.FuncLit:
+					return false
+				case *ast.IfStmt:
+					if child != ast.Node(y.Body) {
+						continue
+					}
+					be, ok := ast.Unparen(y.Cond).(*ast.BinaryExpr)
+					if !ok || be.Op != token.NEQ {
+						continue
+					}
+					x, okx := ast.Unparen(be.X).(*ast.Ident)
+					if tv, ok := n.info.Types[be.Y]; okx && ok && tv.IsNil() && n.info.Uses[x] == types.Object(obj) {
+						return true
+					}
+				}
+			}
+			return false
+		}
+	}
 	boolRet := map[*ast.ReturnStmt]int{} // clone returns whose tested boolean result is a constant: 1 true, -1 false
 	for on, cn := range m {
 		switch x := on.(type) {
@@ -2327,6 +2415,8 @@ func (n *normalizer) bodyText(fd *ast.FuncDecl, mode string, temps []string, res
 			if th != nil && th.errIdx >= 0 && len(x.Results) == len(th.lhs) && th.errIdx < len(x.Results) {
 				if tv, ok := n.info.Types[x.Results[th.errIdx]]; ok && tv.IsNil() {
 					nilRet[cn.(*ast.ReturnStmt)] = true
+				} else if knownNonNil(x, x.Results[th.errIdx]) {
+					nonNilRet[cn.(*ast.ReturnStmt)] = true
 				}
 			}
 			if th != nil && th.whole != nil && th.boolIdx >= 0 && len(x.Results) == len(th.lhs) {
@@ -2545,6 +2635,8 @@ func (n *normalizer) bodyText(fd *ast.FuncDecl, mode string, temps []string, res
 			}
 			if th != nil && th.whole != nil {
 				repl = append(repl, specialiseIf(th, ret, boolRet[ret], len(active) > 0)...)
+			} else if th != nil && nonNilRet[ret] && len(active) == 0 {
+				repl = append(repl, th.body) // the test `err != nil` is known to hold: the name was tested on the way here
 			} else if th != nil && !nilRet[ret] {
 				repl = append(repl, &ast.IfStmt{
 					Cond: &ast.BinaryExpr{X: ast.NewIdent(th.cond), Op: token.NEQ, Y: ast.NewIdent("nil")},
